@@ -52,7 +52,22 @@ func now() int64 {
 
 func logOp(kind, path string) { ops = append(ops, Op{kind, path}) }
 
+// freeInos: inode numbers of deleted files, handed out again most-recent-first (real file systems
+// reuse inode numbers at once, so "same device and inode" does not mean "same file as before")
+var freeInos []uint64
+
+func releaseIno(n *Inode) {
+	if n != nil && n.Nlink <= 0 {
+		freeInos = append(freeInos, n.Ino)
+	}
+}
+
 func newInode(kind int, perm uint32) *Inode {
+	if k := len(freeInos); k > 0 {
+		ino := freeInos[k-1]
+		freeInos = freeInos[:k-1]
+		return &Inode{Kind: kind, Perm: perm & 07777, Ino: ino, Nlink: 1, Mtime: now()}
+	}
 	nextIno++
 	return &Inode{Kind: kind, Perm: perm & 07777, Ino: nextIno + 100, Nlink: 1, Mtime: now()}
 }
@@ -310,7 +325,9 @@ func Stat(name string) (os.FileInfo, error) {
 func SameFile(a, b os.FileInfo) bool {
 	x, ok1 := a.(*FI)
 	y, ok2 := b.(*FI)
-	return ok1 && ok2 && x.n == y.n
+	// as the real one: by device and inode number captured at stat time (not by object identity: a
+	// number freed by a deletion may have been given to a new file since)
+	return ok1 && ok2 && x != nil && y != nil && x.st.Ino == y.st.Ino
 }
 
 //gosym:replace os.Readlink
@@ -381,6 +398,7 @@ func unlink(rp string) {
 	delete(nodes, rp)
 	if n != nil {
 		n.Nlink--
+		releaseIno(n)
 	}
 	touchParent(rp)
 	logOp("remove", rp)
@@ -430,6 +448,7 @@ func RemoveAll(name string) error {
 	for _, k := range victims {
 		if c := nodes[k]; c != nil {
 			c.Nlink--
+			releaseIno(c)
 		}
 		delete(nodes, k)
 		logOp("remove", k)
@@ -466,6 +485,7 @@ func Rename(oldname, newname string) error {
 			return &os.LinkError{Op: "rename", Old: oldname, New: newname, Err: syscall.EISDIR}
 		}
 		nn.Nlink--
+		releaseIno(nn)
 	}
 	if len(np) > len(op) && np[:len(op)+1] == op+"/" {
 		return &os.LinkError{Op: "rename", Old: oldname, New: newname, Err: syscall.EINVAL}
